@@ -22,7 +22,7 @@ def init : St := ⟨0, Spec.empty, false, 0, #[], PState.empty⟩
 def defaultCfg : Cfg := ⟨16, 16, 32, 20, 200, false, false, true⟩
 
 def outName : Outcome → String
-  | .ok => "ok" | .exists => "exists" | .notFound => "notfound"
+  | .ok => "ok" | .exists => "exists" | .notFound => "notfound" | .mdTooLarge => "mdtoolarge"
 
 def fmtResult : Result → String
   | .single o => s!"out {outName o}"
